@@ -51,7 +51,17 @@ func newPool(gr *corpus.Grammar, r *prng.R, hasLexer bool) *inputPool {
 	return p
 }
 
+// oddPrefixes are legal but unusual ways for a source to begin.
+var oddPrefixes = []string{"\ufeff", "\ufeff\ufeff", "\r\n", "\x00", "#!x\n", "\u2028"}
+
 func (p *inputPool) someText(r *prng.R) string {
+	if r.Chance(1, 6) {
+		return prng.Pick(r, oddPrefixes) + p.plainText(r)
+	}
+	return p.plainText(r)
+}
+
+func (p *inputPool) plainText(r *prng.R) string {
 	if len(p.valid) > 0 {
 		if r.Chance(1, 4) {
 			return p.badText(r)
@@ -66,7 +76,7 @@ func (p *inputPool) someText(r *prng.R) string {
 }
 
 func corrupt(r *prng.R, t string) string {
-	junk := []string{"\x00", "§", "\xff", "€", "\t\n", "@@"}
+	junk := []string{"\x00", "§", "\xff", "€", "\t\n", "@@", "\ufeff"}
 	i := 0
 	if len(t) > 0 {
 		i = r.Intn(len(t) + 1)
@@ -89,6 +99,9 @@ func (p *inputPool) badInput(r *prng.R, useTok bool) *harness.Input {
 	toks := p.gr.Mutate(r, s.Tokens, 1+r.Intn(3))
 	txt, laid := p.gr.Layout(r, toks)
 	if !useTok && r.Chance(1, 3) {
+		if r.Chance(1, 4) {
+			return &harness.Input{Text: prng.Pick(r, oddPrefixes) + s.Text, Label: "bad"}
+		}
 		return &harness.Input{Text: corrupt(r, s.Text), Label: "bad"}
 	}
 	return tokensInput(txt, laid, useTok, "bad")
@@ -122,6 +135,18 @@ func (p *inputPool) history(r *prng.R) []harness.Op {
 				}
 			}
 			continue
+		}
+		if r.Chance(1, 7) {
+			// a replaying scanner: the previous Parse input again, same token objects
+			if prev := lastParse(ops); prev != nil {
+				prev.In.Cache = true
+				var f *harness.Fault
+				if r.Chance(1, 4) {
+					f = &harness.Fault{ActionCall: 1 + r.Intn(3), Kind: []string{"error", "panic"}[r.Intn(2)]}
+				}
+				ops = append(ops, harness.Op{Op: "parse", In: prev.In, Fault: f})
+				continue
+			}
 		}
 		switch x := r.Intn(100); {
 		case x < 22:
@@ -183,6 +208,15 @@ func (p *inputPool) history(r *prng.R) []harness.Op {
 		ops = append(ops, harness.Op{Op: "lexreset"})
 	}
 	return ops
+}
+
+func lastParse(ops []harness.Op) *harness.Op {
+	for i := len(ops) - 1; i >= 0; i-- {
+		if ops[i].Op == "parse" && ops[i].In != nil {
+			return &ops[i]
+		}
+	}
+	return nil
 }
 
 func RunC16(c *Ctx) error {
